@@ -48,7 +48,7 @@ def run(ctx):
     if ctx.tier == 'thorough' and ok:
         ctx.coqchk('Props/C01.v')
     quick = ctx.tier == 'quick'
-    cases = R.gen_cases(ctx, 1600 if quick else 60000, 150 if quick else 3000, 900 if quick else 30000, 4 if quick else 6)
+    cases = R.gen_cases(ctx, 1600 if quick else 20000, 150 if quick else 2000, 900 if quick else 10000, 4 if quick else 6)
     R.record(ctx, cases)
     ctx.rule = ('random type trees (depth <= %d) x protocol versions {1..6,0x41,0x42} x typed values from boundary pools with nulls at every '
                 'level, fixed special shapes, corpus of past failures, out-of-range/shape-error stream, mutated-bytes decode stream; '
